@@ -72,12 +72,19 @@ class Run:
         # file number -> label of the metamodel the file belongs to (imported files of another language)
         self.owner = {int(k): lab for k, lab in (case.get("mmfile") or {}).items()}
         self.registered = False
+        self.cur_label = 0  # label of the metamodel of the model being dumped (class ids are per metamodel)
 
     # -- canonical numbering ------------------------------------------------
     def cidx(self, name):
         if name not in self.classes:
             self.classes.append(name)
         return self.classes.index(name)
+
+    def cname(self, name, label=None):
+        """name of a class in the Lean request: the classes of another metamodel of the history are
+        different classes (own registrations, own set of user classes) even when the grammar is the same."""
+        label = self.cur_label if label is None else label
+        return name if not label else f"{name}@{label}"
 
     def aidx(self, name):
         if name not in self.attrs:
@@ -146,8 +153,9 @@ class Run:
         for name, a in self.meta_of(v).items():
             val = getattr(v, name, None)
             enc = self.deep(val, meta, register, many=self.is_many(a)) if a.cont else self.ref_view(val)
-            fs.append([self.aidx(name), bool(a.cont), self.is_many(a), self.cidx(a.cls.__name__), enc] if meta else enc)
-        return {"o": uid, "c": self.cidx(type(v).__name__), "f": fs}
+            fs.append([self.aidx(name), bool(a.cont), self.is_many(a), self.cidx(self.cname(a.cls.__name__)), enc]
+                      if meta else enc)
+        return {"o": uid, "c": self.cidx(self.cname(type(v).__name__)), "f": fs}
 
     def shallow(self, v, many=False):
         if v is None:
@@ -169,7 +177,11 @@ class Run:
         k = self.file_of_model(model)
         if k not in self.pre and self.is_obj(model):
             self.models[k] = model
-            self.pre[k] = self.deep(model, meta=True, register=True)
+            self.cur_label = self.owner.get(k, 0)
+            try:
+                self.pre[k] = self.deep(model, meta=True, register=True)
+            finally:
+                self.cur_label = 0
 
     def all_models(self, obj):
         from textx import get_model
@@ -231,14 +243,17 @@ class Run:
         loaded = pg.loaded_rules(self.schema, gs["levels"])
         return [n for n in self.schema["user"] if n in loaded]
 
-    def new_metamodel(self, label=0, shared=True):
+    def new_metamodel(self, label=0, shared=True, users=None):
         """one more metamodel of the case's grammar; `shared`: built with the same user classes as
-        the others (every build re-initialises the `_tx_*` class attributes of a user class)."""
+        the others (every build re-initialises the `_tx_*` class attributes of a user class);
+        `users`: the rules this metamodel gets a user class for (None: all user-class rules of the case)."""
         from textx import metamodel_from_file, metamodel_from_str
 
         if self.user is None:
             self.user = [self.user_class(n) for n in self.user_names()]
         classes = list(self.user) if shared else [self.user_class(n) for n in self.user_names()]
+        if users is not None:
+            classes = [c for c in classes if c.__name__ in users]
         opts = dict(self.schema["opts"])
         if self.case.get("grepo"):
             opts["global_repository"] = True
@@ -378,14 +393,14 @@ class Run:
 
         return proc
 
-    def processors(self, mm=None, reg=None, label=0, replaced=False):
+    def processors(self, mm=None, reg=None, label=0, replaced=False, match_reg=None):
         from textx import textxerror_wrap
 
         mm = mm or self.mm
         procs = {}
         for rule in (self.reg if reg is None else reg):
             procs[rule] = self.obj_processor(rule, label, replaced)
-        for rule in self.match_reg:
+        for rule in (self.match_reg if match_reg is None else match_reg):
             procs[rule] = self.match_processor(rule)
         for rule in self.wrapped:
             if rule in procs:
